@@ -115,7 +115,7 @@ func (self ParsingError) Error() string {
 }
 
 func (self ParsingError) Message() string {
-    if int(self) < len(_ParsingErrors) {
+    if self < ParsingError(len(_ParsingErrors)) {
         return _ParsingErrors[self]
     } else {
         return fmt.Sprintf("unknown error %d", self)
